@@ -384,4 +384,35 @@ theorem reach_exact (g : PMap) (d : Key → Nat) (start stop K : List Key)
           exact Reach.step (ih (d j) (by omega) j rfl hj) (hKs j hj) hps hkps
     exact key (d k) k rfl hk
 
+/-! ### `_find_possible_heads` respects the depth limit -/
+
+/-- `ChildSteps pm n r h`: `h` is reached from `r` by `n` child steps in the cache -/
+inductive ChildSteps (pm : PMap) : Nat → Key → Key → Prop
+  | zero {r : Key} : ChildSteps pm 0 r r
+  | succ {n : Nat} {r c h : Key} : c ∈ childrenOf pm r → ChildSteps pm n c h → ChildSteps pm (n + 1) r h
+
+theorem headsLoop_within (pm : PMap) : ∀ (depth : Nat) (heads roots walked : List Key) (h : Key),
+    h ∈ headsLoop pm depth heads roots walked →
+      h ∈ heads ∨ ∃ n, n ≤ depth ∧ ∃ r ∈ roots, ChildSteps pm n r h := by
+  intro depth
+  induction depth with
+  | zero =>
+    intro heads roots walked h hh
+    simp only [headsLoop, List.mem_append] at hh
+    rcases hh with hh | hh
+    · exact Or.inl hh
+    · exact Or.inr ⟨0, Nat.le_refl _, h, hh, ChildSteps.zero⟩
+  | succ depth ih =>
+    intro heads roots walked h hh
+    unfold headsLoop at hh
+    split at hh
+    · exact Or.inl hh
+    · rcases ih _ _ _ h hh with h1 | ⟨n, hn, r', hr', hsteps⟩
+      · rcases List.mem_append.mp h1 with h1 | h1
+        · exact Or.inl h1
+        · exact Or.inr ⟨0, Nat.zero_le _, h, (List.mem_filter.mp h1).1, ChildSteps.zero⟩
+      · have := (List.mem_filter.mp (mem_dedup.mp hr')).1
+        obtain ⟨r, hr, hc⟩ := List.mem_flatMap.mp this
+        exact Or.inr ⟨n + 1, by omega, r, hr, ChildSteps.succ hc hsteps⟩
+
 end BreezyVerif.C33
